@@ -75,13 +75,14 @@ def gen_line(rnd):
         return '%s %s' % (name, spell(rnd, v)), want_bytes(w, v), min(abs(v - lo), abs(v - hi)) <= 2
     code = rnd.choice(list(PACKC))
     w = PACKC[code]
-    order = rnd.choice('<>')
+    order = rnd.choice('<><>!=')      # (struct byte orders with standard sizes: little, big, network = big, native order)
     if code.islower():
         lo, hi = -(1 << (8 * w - 1)), (1 << (8 * w - 1)) - 1
     else:
         lo, hi = 0, (1 << (8 * w)) - 1
     v = edge_value(rnd, lo, hi)
-    exp = want_bytes(w, v, 'little' if order == '<' else 'big', signed_only=code.islower(), unsigned_only=code.isupper())
+    import sys as _sys
+    exp = want_bytes(w, v, {'<': 'little', '>': 'big', '!': 'big', '=': _sys.byteorder}[order], signed_only=code.islower(), unsigned_only=code.isupper())
     return 'pack %s%s%s%s' % (order, code, rnd.choice([' ', ', ']), spell(rnd, v)), exp, min(abs(v - lo), abs(v - hi)) <= 2
 
 
@@ -148,7 +149,7 @@ SAFE_ASCII = [chr(c) for c in range(0x20, 0x7f) if chr(c) != '\\']
 NONASCII = list('éßÿ×÷πЖ→日本語€😀𝄞') + [' ', 'ÿ', 'Ā', '߿', 'ࠀ', '￿', '\U00010000', '\U0010ffff']
 # text that is not stable under Unicode normalisation (combining marks, compatibility characters, conjoining jamo) and quoted
 # single characters (a character literal everywhere else - plain text here)
-UNSTABLE = ['e\u0301', '\u2126', '\u212b', '\u1112\u1161\u11ab', 'n\u0303', '\ufb01', '\u00b5', '\u1e9b\u0323']
+UNSTABLE = ['\ufeff', 'a\ufeffb', 'e\u0301', '\u2126', '\u212b', '\u1112\u1161\u11ab', 'n\u0303', '\ufb01', '\u00b5', '\u1e9b\u0323']
 # words that start other directives, and a literal TAB, in the middle of the text
 WORDS = ['fatal error in sector 7', ' error ', 'the string table', ' string x', 'a\tb', 'col1\tcol2\t', ' include me', ' align 4', ' # not a comment', '  two  blanks  ']
 QUOTED = ["'q'", "','", "'#'", "' '", "'0'", "';'", "'('", "it's", "'ab'", "''", "'\\n'"]
